@@ -38,8 +38,15 @@ class Obj(EditableModule):
         self.calls += 1
         return (torch.tanh(self.A @ y) * th).sum() + (y ** 3).sum()
 
+    # the same functions with non-differentiable arguments (a number, a tensor that does not require grad) in front
+    def f2(self, k, w, y, th):
+        return self.f(y, th) * k + w.sum() * 0
+
+    def g2(self, k, w, y, th):
+        return self.g(y, th) * k + w.sum() * 0
+
     def getparamnames(self, methodname, prefix=""):
-        if methodname in ("f", "g"):
+        if methodname in ("f", "g", "f2", "g2"):
             return [prefix + "A"]
         raise KeyError(methodname)
 
@@ -53,14 +60,21 @@ def g_math(y, th, A):
 
 
 class JacReplayer(object):
-    def __init__(self, which, seed):
+    def __init__(self, which, seed, shifted=False):
         g = torch.Generator().manual_seed(seed)
         self.ys = [torch.randn(2, generator=g, dtype=DT).requires_grad_() for _ in range(3)]
         self.ths = [torch.randn(2, generator=g, dtype=DT).requires_grad_() for _ in range(3)]
         self.obs = [torch.randn(2, 2, generator=g, dtype=DT).requires_grad_() for _ in range(3)]
         self.obj = Obj(self.obs[0])
         self.which = which
-        if which == "jac":
+        self.shifted = shifted
+        if shifted:
+            w = torch.ones(2, dtype=DT)
+            if which == "jac":
+                self.op = xitorch.grad.jac(self.obj.f2, (1.0, w, self.ys[0], self.ths[0]), idxs=2)
+            else:
+                self.op = xitorch.grad.hess(self.obj.g2, (1.0, w, self.ys[0], self.ths[0]), idxs=2)
+        elif which == "jac":
             self.op = xitorch.grad.jac(self.obj.f, (self.ys[0], self.ths[0]), idxs=0)
         else:
             self.op = xitorch.grad.hess(self.obj.g, (self.ys[0], self.ths[0]), idxs=0)
@@ -127,9 +141,9 @@ def graph_replay(ctx, depth, nprod, budget, rng):
     rng.shuffle(alledges)
     n = 0
     for s, d, lab in alledges[:budget]:
-        for which in ("jac", "hess"):
+        for which, shifted in (("jac", False), ("hess", False), ("jac", True), ("hess", True)):
             n += 1
-            rp = JacReplayer(which, ctx.seed + 3)
+            rp = JacReplayer(which, ctx.seed + 3, shifted)
             why = None
             acts = []
             try:
@@ -156,9 +170,10 @@ def graph_replay(ctx, depth, nprod, budget, rng):
                 why = "%s: %s" % (type(e).__name__, e)
             finally:
                 rp.close()
-            ctx.case(key=(which, tuple(acts)), sample={"operator": which, "actions": acts, "spec_last": nodes[d]["last"]} if n % 300 == 1 else None)
+            ctx.case(key=(which, shifted, tuple(acts)), sample={"operator": which, "actions": acts, "spec_last": nodes[d]["last"]} if n % 300 == 1 else None)
             if why:
-                ctx.violation("jaccache/%s/%s" % (which, lab.split('"')[1]), "%s operator after %s: %s" % (which, acts, why), {"which": which, "actions": acts})
+                ctx.violation("jaccache/%s%s/%s" % (which, "-after-nondiff-args" if shifted else "", lab.split('"')[1]),
+                              "%s operator%s after %s: %s" % (which, " of argument 2 behind a number and a no-grad tensor" if shifted else "", acts, why), {"which": which, "actions": acts})
     return len(nodes), n
 
 
